@@ -37,6 +37,35 @@ theorem replace_changes_matches_only (cs new : List Char) (spans : List (Nat × 
     simpa using this
   · exact subNode_weave cs new 0 spans
 
+/-- **replacement templates** (`re.sub` syntax: literal pieces and references to the whole match): the new node is the weave of
+    THE SAME gaps with the expansion of the template at each match -/
+theorem replace_template_changes_matches_only (cs : List Char) (tpl : Template) (spans : List (Nat × Nat)) :
+    subNodeT cs tpl 0 spans = weave (gaps cs 0 spans) (spans.map (fun p => expandT tpl ((cs.take p.2).drop p.1))) :=
+  subNodeT_weave cs tpl 0 spans
+
+/-- … markup and neighbouring nodes stay in place under a template as well -/
+theorem replace_template_keeps_markup (tpl : Template) (ts : Toks) (spans : List (List (Nat × Nat))) :
+    (replaceAllT tpl ts spans).map Tok.erase = ts.map Tok.erase := replaceAllT_shape tpl ts spans
+
+/-- the template made of one reference to the whole match rewrites every node into itself, for every family of matches
+    `finditer` can yield -/
+theorem replace_by_whole_match_is_identity (cs : List Char) (spans : List (Nat × Nat)) (hs : Sorted cs.length 0 spans) :
+    subNodeT cs [none] 0 spans = cs := by
+  rw [subNodeT_weave]
+  have := original_weave cs 0 spans hs
+  simp only [List.drop_zero] at this
+  conv => rhs; rw [this]
+  congr 1
+  apply List.map_congr_left
+  intro p _
+  exact expandT_whole _
+
+/-- a template without reference is the literal replacement of the theorems above -/
+theorem template_literal_is_literal (cs l : List Char) (spans : List (Nat × Nat)) :
+    subNodeT cs [some l] 0 spans = subNode cs l 0 spans := subNodeT_literal cs l 0 spans
+
+example : subNodeT "ab cab".toList [some ['['], none, some [']']] 0 [(0, 2), (4, 6)] = "[ab] c[ab]".toList := by decide +kernel
+
 /-- replacing every match by itself is the identity (sanity of `subNode`) when there is one match -/
 theorem replace_by_itself (cs : List Char) (a b : Nat) (h : Sorted cs.length 0 [(a, b)]) :
     subNode cs ((cs.take b).drop a) 0 [(a, b)] = cs := by
